@@ -81,12 +81,18 @@ theorem exitClean_clean (c : Core) (rc : Err) (hm : c.modules = []) (h : rc ≠ 
 
 theorem exitClean_notReady (c : Core) : exitClean c .blockNotReady = c := by simp [exitClean]
 
+@[simp] theorem CallOut.pre_rc (ms : List Msg) (r : CallOut) : (r.pre ms).rc = r.rc := rfl
+@[simp] theorem CallOut.pre_sc (ms : List Msg) (r : CallOut) : (r.pre ms).sc = r.sc := rfl
+@[simp] theorem CallOut.pre_it (ms : List Msg) (r : CallOut) : (r.pre ms).it = r.it := rfl
+@[simp] theorem CallOut.pre_world (ms : List Msg) (r : CallOut) : (r.pre ms).world = r.world := rfl
+@[simp] theorem CallOut.pre_msgs (ms : List Msg) (r : CallOut) : (r.pre ms).msgs = ms ++ r.msgs := rfl
+
 /-- the four exits of `afterLoop`, as one case analysis -/
 theorem afterLoop_cases (P : Params) (cb : Nat → CbRet) (stack : Nat) (s : Sc) (it : It) (o : LoopOut) :
     let r := afterLoop P cb stack s it o
     (o.result ≠ .success ∧ r.rc = o.result ∧ r.sc.core = exitClean o.core o.result) ∨
     (o.result = .success ∧ r.rc ≠ .blockNotReady ∧ ∃ c, c.modules = [] ∧ r.sc.core = exitClean c r.rc) := by
-  simp only [afterLoop]
+  simp only [afterLoop, CallOut.pre_rc, CallOut.pre_sc, afterLoop0]
   split
   · left; rename_i h; exact ⟨h, rfl, rfl⟩
   · right
@@ -194,12 +200,13 @@ def CallOut.obs (o : CallOut) : Settings × Core × It × World × List Msg × E
 
 theorem afterLoop_congr (P : Params) (cb : Nat → CbRet) (stack : Nat) (s s' : Sc) (it : It) (o : LoopOut)
     (h : s.set = s'.set) : (afterLoop P cb stack s it o).obs = (afterLoop P cb stack s' it o).obs := by
-  simp only [afterLoop, h]
+  simp only [afterLoop, CallOut.obs, CallOut.pre_rc, CallOut.pre_sc, CallOut.pre_it, CallOut.pre_world, CallOut.pre_msgs,
+    afterLoop0, h]
   split
-  · simp [CallOut.obs]
+  · simp
   · split
-    · simp [CallOut.obs]
-    · split <;> simp [CallOut.obs]
+    · simp
+    · split <;> simp
 
 theorem scanCall_congr (P : Params) (v : Variant) (cb : Nat → CbRet) (stack : Nat) (s s' : Sc) (it : It) (w : World)
     (h : s.set = s'.set) (hc : s.core = s'.core) :
@@ -226,7 +233,7 @@ theorem scanCall_no_callback (P : Params) (v : Variant) (cb : Nat → CbRet) (st
 
 theorem afterLoop_set (P : Params) (cb : Nat → CbRet) (stack : Nat) (s : Sc) (it : It) (o : LoopOut) :
     (afterLoop P cb stack s it o).sc.set = s.set := by
-  simp only [afterLoop]
+  simp only [afterLoop, CallOut.pre_sc, afterLoop0]
   split
   · rfl
   · split
